@@ -331,7 +331,7 @@ func TestVerifC12Meta(t *testing.T) {
 			if len(obs.broken) > 0 {
 				vfOracleFail("truncated-or-unloadable-shard-visible:"+win, "after a kill a visible *.zoekt does not load: "+strings.Join(obs.broken, "; "), replay("kill", k, err, lg, obs))
 			} else if obs.digest != oldObs.digest && obs.digest != refObs.digest {
-				vfOracleFail("mix:"+win, "after a kill of mergeMeta the searcher sees neither the old nor the new metadata ("+win+")", replay("kill", k, err, lg, obs))
+				vfOracleFail("mix:mergeMeta:"+win, "after a kill of mergeMeta the searcher sees neither the old nor the new metadata ("+win+")", replay("kill", k, err, lg, obs))
 			}
 		}
 		for j := 0; j < L; j++ {
